@@ -299,10 +299,16 @@ def gen_cases(rng, quick):
 
 
 # ------------------------------------------------------------------------------------- scenarios
-CANARY = [{"op": "connect", "c": "k", "params": {"user": "u", "database": "db"}, "password": "pw", "timeout_ms": 4000},
-          {"op": "send", "c": "k", "msgs": [{"t": "Q", "sql": "SELECT 'canary-1'"}]}, {"op": "recv", "c": "k", "until": "Z", "timeout_ms": 4000},
-          {"op": "send", "c": "k", "msgs": [{"t": "Q", "sql": "SELECT 'canary-2'"}]}, {"op": "recv", "c": "k", "until": "Z", "timeout_ms": 4000},
-          {"op": "snapshot", "label": "end"}]
+def canary(wait_ms=5000):
+    # the canary terminates and waits for the pooler's close: its server is back in the pool by then (no timing involved)
+    return [{"op": "connect", "c": "k", "params": {"user": "u", "database": "db"}, "password": "pw", "timeout_ms": 4000},
+            {"op": "send", "c": "k", "msgs": [{"t": "Q", "sql": "SELECT 'canary-1'"}]}, {"op": "recv", "c": "k", "until": "Z", "timeout_ms": 4000},
+            {"op": "send", "c": "k", "msgs": [{"t": "Q", "sql": "SELECT 'canary-2'"}]}, {"op": "recv", "c": "k", "until": "Z", "timeout_ms": 4000},
+            {"op": "send", "c": "k", "msgs": [{"t": "X"}]}, {"op": "recv", "c": "k", "until": "", "count": 0, "timeout_ms": 4000, "label": "bye"},
+            {"op": "wait_tasks", "n": 2, "timeout_ms": wait_ms}, {"op": "snapshot", "label": "end"}]
+
+
+CANARY = canary()
 
 
 def stream_bytes(c):
@@ -345,8 +351,9 @@ def scenario(c, wait_ms=6000):
         if c.get("splits"):
             s["splits"] = c["splits"]
         steps.append(s)
-    steps += [{"op": "half_close", "c": A}, {"op": "recv", "c": A, "until": "", "count": 0, "timeout_ms": wait_ms, "label": "hostile"}, {"op": "close", "c": A}]
-    return {"backends": [{"name": "b0"}], "toml": make_toml(v, trust), "hex": False, "workers": 2, "steps": steps + CANARY}
+    steps += [{"op": "half_close", "c": A}, {"op": "recv", "c": A, "until": "", "count": 0, "timeout_ms": wait_ms, "label": "hostile"}, {"op": "close", "c": A},
+              {"op": "wait_tasks", "n": 1, "timeout_ms": wait_ms}]
+    return {"backends": [{"name": "b0"}], "toml": make_toml(v, trust), "hex": False, "workers": 2, "steps": steps + canary(wait_ms)}
 
 
 # ----------------------------------------------------------------------------------- observation
@@ -411,7 +418,7 @@ def monitors(res, c):
     k_done = [e for e in ev if e.get("who") == "k" and e.get("ev") == "startup_done"]
     if not k_done or not k_done[0].get("auth_ok"):
         bad.append("canary could not log in")
-    recvs = [e for e in ev if e.get("who") == "k" and e.get("ev") == "recv"]
+    recvs = [e for e in ev if e.get("who") == "k" and e.get("ev") == "recv" and e.get("label") != "bye"]
     for i, e in enumerate(recvs[:2]):
         want = "SELECT 'canary-%d'" % (i + 1)
         rows = [f for f in e["frames"] if f.get("t") == "D"]
@@ -423,7 +430,9 @@ def monitors(res, c):
         bad.append("canary statements missing")
     first = [e for e in ev if e.get("ev") == "msg" and e.get("detail", {}).get("sql") == "SELECT 'canary-1'"]
     if first:
-        st = first[0]["state"]
+        st = dict(first[0]["state"])
+        # the pooler's own PGCAT_n statements stay on a server connection by design (C08), they are nobody's session state
+        st["stmts"] = [x for x in st.get("stmts", []) if not str(x[0]).startswith("PGCAT_")]
         dirty = {k: st.get(k) for k in CLEAN if st.get(k) != CLEAN[k]}
         if dirty:
             bad.append("canary's first statement reached a backend session that was not clean: %s" % dirty)
@@ -436,9 +445,6 @@ def monitors(res, c):
             for x in p["servers"]:
                 if x["connections"] > 1 or x["idle"] != x["connections"]:
                     bad.append("capacity not restored: connections=%d idle=%d (pool_size 1)" % (x["connections"], x["idle"]))
-        nopen = len(s["backends"]["b0"]["open"])
-        if nopen > 1 or s["backends"]["b0"]["max_open"] > 1:
-            bad.append("more backend sessions than pool_size: open=%d max_open=%d" % (nopen, s["backends"]["b0"]["max_open"]))
     else:
         bad.append("no final snapshot")
     return bad
@@ -471,10 +477,11 @@ def frames_of(bs):
 def coq_opts(c, chk, customs, fxs):
     v = VARIANTS[c["variant"]]
     b = lambda x: "true" if x else "false"
-    cl = "[" + "; ".join(vlib.coq_bytes(q) for q in customs) + "]"
-    fl = "[" + "; ".join(vlib.coq_bytes(q) for q in fxs) + "]"
+    def tab(pairs):
+        return "(fun q => " + "".join("if beq_bytes q %s then %d%%N else " % (vlib.coq_bytes(q), v_) for q, v_ in pairs) + "0%N)"
+    cl, fl = tab(customs), tab(fxs)
     ph = "(fun q => if beq_bytes q %s then [1%%Z] else [])" % vlib.coq_bytes(KQ) if v["rw"] else "(fun _ => [])"
-    return ("(mkO %s %s %s %s %s None true %s %s %s false %s %s (fun q => mem_bytes q %s) %s (fun q => mem_bytes q %s))"
+    return ("(mkO %s %s %s %s %s None true %s %s %s false %s %s %s %s %s)"
             % (b(chk), b(v["parser"]), b(v["cache"]), b(v["regex"]), b(v["rw"]), vlib.coq_bytes(b"u"), vlib.coq_bytes(b"db"),
                b(c["state"] == "pre_startup_trust"), vlib.coq_bytes(PW_SENTINEL), vlib.coq_bytes(PW_SENTINEL), cl, ph, fl))
 
@@ -487,13 +494,44 @@ def model_input(c):
             return "PreStartup", hb
         if c["state"] == "after_ssl_n":
             return "AfterSslN", hb
-        return ("AwaitPw true" if c["state"] == "await_pw_admin" else "AwaitPw false"), hb
+        return ("(AwaitPw true)" if c["state"] == "await_pw_admin" else "(AwaitPw false)"), hb
     if c["kind"] == "admin":
         return "AdminIdle", hb
     return "(Idle c0)", post_states(VARIANTS[c["variant"]])[c["state"]][0] + hb
 
 
-ADMIN_FX = re.compile(rb"^\s*(BAN|UNBAN|RELOAD|PAUSE|RESUME|SHUTDOWN)\b", re.I)
+ADMIN_SHOW = {"HELP", "BANS", "CONFIG", "DATABASES", "LISTS", "POOLS", "CLIENTS", "SERVERS", "STATS", "VERSION", "USERS"}
+
+
+def admin_class(q):
+    """admin.rs handle_admin: 0 unsupported (error_response), 1 answered, 2 state-changing"""
+    try:
+        parts = q.decode("utf-8").rstrip(";").split()
+    except UnicodeDecodeError:
+        return 0
+    w = parts[0].upper() if parts else ""
+    if w in ("BAN", "UNBAN", "RELOAD", "PAUSE", "RESUME", "SHUTDOWN"):
+        return 2
+    if w == "SET":
+        return 1
+    if w == "SHOW":
+        return 1 if (parts[1].upper() if len(parts) > 1 else "") in ADMIN_SHOW else 0
+    return 0
+
+
+def custom_class(txt, rx):
+    """try_execute_command + handle_custom_protocol on a one-shard pool: 0 none, 1 answered, 2 error_response"""
+    hits = [i for i, r in enumerate(rx) if r.search(txt)]
+    if len(hits) != 1:
+        return 0
+    i = hits[0]
+    m = rx[i].search(txt)
+    if i == 0:
+        return 1 if int(m.group(1)) < 2**63 else 2
+    if i == 1:
+        v_ = m.group(1)
+        return 1 if v_.upper() == "ANY" or int(v_) < 1 else 2
+    return 1
 
 
 def coq_expr(c, obs, chk, rx):
@@ -506,10 +544,10 @@ def coq_expr(c, obs, chk, rx):
                 txt = q.decode("utf-8")
             except UnicodeDecodeError:
                 txt = None
-            if txt is not None and sum(1 for r in rx if r.search(txt)) == 1:
-                customs.append(q)
-            if c["kind"] == "admin" and ADMIN_FX.match(body[:-1] if body else b""):
-                fxs.append(body[:-1])
+            if txt is not None and c["kind"] != "admin" and custom_class(txt, rx):
+                customs.append((q, custom_class(txt, rx)))
+            if c["kind"] == "admin" and body and admin_class(body[:-1]):
+                fxs.append((body[:-1], admin_class(body[:-1])))
     return "observe %s %s %s [%s]" % (coq_opts(c, chk, customs, fxs), st, vlib.coq_bytes(bs), "; ".join(obs["zs"]))
 
 
@@ -536,7 +574,7 @@ def expected_task(kl, sc):
 
 def compare(c, obs, val):
     """model value vs observation -> list of disagreements"""
-    (kl, sc), zs, nerr = vlib.parse_coq(val)
+    kl, sc, zs, nerr = vlib.parse_coq(val)
     diffs = []
     if zs != obs["zs"]:
         diffs.append("reply terminators: model %s, implementation %s" % (zs, obs["zs"]))
@@ -672,7 +710,7 @@ def special_scenarios(run, wire, quick):
     hung = bool(probs) and not r.get("task_results")
     # the model's prediction for exactly this stream: Blocked
     val = vlib.coq_eval("c11_f21c", PREAMBLE, ["observe %s (Idle c0) %s [ZG]" % (coq_opts(c2, True, [], []), vlib.coq_bytes(Pm(b"", sql) + Bm() + Em() + Sm + dm(b"1\tx\n") + cm + Sm))])[0]
-    (kl, sc), zs, nerr = vlib.parse_coq(val)
+    kl, sc, zs, nerr = vlib.parse_coq(val)
     out["F21c"] = {"reproduced": hung, "monitors": probs[:2], "model": kl}
     if hung:
         if "F21c-extended-copy-needs-sync" in known:
